@@ -171,8 +171,75 @@ def el_table(el):
     return None
 
 
+SKEW_TABLES = [   # (xs, ys): integer tables with integral slopes, strongly uneven spacing (wave 6)
+    ([0, 1, 2, 3, 20], [0, 10, 0, 10, 61]),                       # clustered at the low end, one far point
+    ([0, 17, 18, 19, 20], [5, 39, 30, 41, 20]),                   # clustered at the high end
+    ([1, 2, 4, 8, 16, 32, 64], [0, 3, -1, 7, -1, 31, -1]),        # geometric
+    ([0, 1, 2, 30, 31, 32], [4, 0, 6, 62, 50, 57]),               # a gap in the middle
+    ([-3, -2, -1, 0, 1, 2, 3, 40], [9, 0, 7, 1, 8, 2, 6, 43]),    # 8 points, far outlier
+    ([0, 5], [2, 12]), ([0, 1, 10], [3, 0, 27])]
+
+
+def gen_table_skewed(rng):
+    """<xpts> of 2-8 points with skewed spacing: geometric, clustered at either end, one far outlier; dyadic coordinates"""
+    n = rng.range(2, 8)
+    style = rng.below(4)
+    if style == 0:
+        xs = [float(2 ** k) for k in range(n)]
+    elif style == 1:
+        xs = [0.5 * k for k in range(n - 1)] + [0.5 * (n - 2) + rng.choice([16.0, 25.0, 40.5])]
+    elif style == 2:
+        far = rng.choice([16.0, 25.0, 40.5])
+        xs = [0.0] + [far + 0.5 * k for k in range(n - 1)]
+    else:
+        h = max(1, n // 2)
+        xs = [float(k) for k in range(h)] + [h - 1 + rng.choice([20.0, 33.5]) + k for k in range(n - h)]
+    xs = sorted(set(xs))
+    if len(xs) < 2:
+        xs = [0.0, 8.0]
+    off = rng.choice([0.0, -4.0, 1.5])
+    xs = [x + off for x in xs]
+    ys = [rng.choice([0.0, 1.0, 2.0, 3.5, 5.0, 8.0, 41.25, 7.25, -1.5, -0.25, 12.0]) for _ in xs]
+    return list(zip(xs, ys)), ("xpts",)
+
+
+def lerp_probe_points(pts):
+    """abscissae: below, every knot, the middle and the quarters of every segment, above"""
+    xs = [p[0] for p in pts]
+    out = [xs[0] - 1, xs[0] - 0.5]
+    for a, b in zip(xs, xs[1:]):
+        out += [a, a + (b - a) / 4, a + (b - a) / 2, a + 3 * (b - a) / 4]
+    return out + [xs[-1], xs[-1] + 0.5, xs[-1] + 7]
+
+
+def probe_lerp(mod, rng, quick):
+    """the REAL generated LERP against the reference on skewed tables; returns (kernel rows, first failure or None, count)"""
+    rows, fail, count = [], None, 0
+    tables = [list(zip(map(float, xs), map(float, ys))) for xs, ys in SKEW_TABLES] + [gen_table_skewed(rng)[0] for _ in range(12 if quick else 200)]
+    for ti, pts in enumerate(tables):
+        integer = ti < len(SKEW_TABLES)
+        probes = lerp_probe_points(pts)
+        if integer:
+            probes = sorted(set(probes) | {float(x) for x in range(int(pts[0][0]) - 2, int(pts[-1][0]) + 3)})
+        for x in probes:
+            want = py_lerp(pts, x)
+            try:
+                got = float(mod.LERP(x, [tuple(p) for p in pts]))
+            except BaseException as ex:
+                got = f"{type(ex).__name__}: {ex}"
+            count += 1
+            good = isinstance(got, float) and math.isclose(got, want, rel_tol=1e-12, abs_tol=1e-12)
+            if not good and fail is None:
+                fail = {"points": [list(p) for p in pts], "x": x, "observed": got, "expected": want}
+            if integer and x == int(x) and isinstance(got, float) and got == int(got) and len(rows) < 400:
+                rows.append(([(int(a), int(b)) for a, b in pts], int(x), int(got), want == got))
+    return rows, fail, count
+
+
 def gen_table(rng):
     n = rng.range(2, 6)
+    if rng.chance(1, 3):
+        return gen_table_skewed(rng)
     if rng.chance(1, 2):
         lo, hi = rng.choice([(0.0, 10.0), (0.0, 1.0), (1.0, 13.0), (-5.0, 5.0)])
         xs = [lo + k * (hi - lo) / (n - 1) for k in range(n)]
@@ -915,7 +982,7 @@ def lean_list(xs):
     return "[" + ", ".join(xs) + "]"
 
 
-def gen_lean(skels, normalises, bprobes=(), skel_ok=True, builder_ok=True):
+def gen_lean(skels, normalises, bprobes=(), skel_ok=True, builder_ok=True, lerp_rows=(), lerp_ok=True):
     rows = []
     for ni, no, _text, words in skels:
         toks = ", ".join(pyfrag.lean_tok(w) for w in words)
@@ -942,12 +1009,19 @@ def gen_lean(skels, normalises, bprobes=(), skel_ok=True, builder_ok=True):
               "inner `()` node denotes -/\n"
               "theorem xmile_builder_not_ok : builderOK bprobes = false := by decide +kernel\n#print axioms xmile_builder_not_ok\n"
               "#print axioms bare_outflows_witness\n")
+    lint = lambda i: f"({i})" if i < 0 else str(i)
+    lrows = ",\n".join("  { pts := [" + ", ".join(f"({lint(a)}, {lint(b)})" for a, b in pts) + f"], x := {lint(x)}, y := {lint(y)} }}" for pts, x, y, _ in lerp_rows)
+    lerp_ob = f"def lerpRows : List LerpRow := [\n{lrows}]\n" + (
+        "/-- wave 6: what the REAL generated LERP returned on integer tables with strongly uneven spacing (every integer abscissa from below to above\n"
+        "the range) is the model's `lerp` -/\ntheorem xmile_lerp_rows_ok : lerpRowsOK lerpRows = true := by decide +kernel\n#print axioms xmile_lerp_rows_ok\n" if lerp_ok else
+        "/-- the generated LERP is NOT the model's `lerp` on some probed row; `lerp_bounded_witness` shows a segment search with bounded correction -/\n"
+        "theorem xmile_lerp_rows_not_ok : lerpRowsOK lerpRows = false := by decide +kernel\n#print axioms xmile_lerp_rows_not_ok\n#print axioms lerp_bounded_witness\n")
     return ("import Bptk.Props.C04\n/-! GENERATED by harness/props/c04.py from /repo on every run — do not edit. -/\n"
             "namespace Bptk.C04.Gen\nopen Bptk.Py in\n"
             "def skeletons : List (Nat × Nat × List Bptk.Py.Tok) := [\n" + ",\n".join(rows) + "]\n"
             "open Bptk.Py in\ndef bprobes : List BProbe := [\n" + ",\n".join(brows) + "]\n"
             f"def cfg : Cfg := {{ memoNormalises := {b} }}\n"
-            + skel_ob + bld_ob + body + "end Bptk.C04.Gen\n")
+            + skel_ob + bld_ob + lerp_ob + body + "end Bptk.C04.Gen\n")
 
 
 # ---------------------------------------------------------------- run
@@ -989,6 +1063,10 @@ def _run2(chk, scratch, bp):
     chk.notes["cfg"] = {"memoNormalises": normalises}
     chk.notes["probe_flow_gf_applied"] = flow_gf_ok
     chk.notes["skeleton_texts"] = {f"{a}in{b}out": t for a, b, t, _ in skels}
+    lmod, _ = compile_xmile_model(PROBE_ELEMS, "0", "1", ("1", None), scratch)
+    lerp_rows, lerp_fail, lerp_count = probe_lerp(lmod, chk.rng.fork("c04-lerp"), chk.quick)
+    lerp_rows_ok = all(r[3] for r in lerp_rows) and len(lerp_rows) > 0
+    chk.notes["lerp_probe"] = {"calls": lerp_count, "kernel_rows": len(lerp_rows), "first_failure": lerp_fail}
     bprobes = probe_builder()
     bld_bad = [(len(i), len(o), lean, pred, text) for i, o, lean, pred, _w, text in bprobes if lean != pred]
     skel_reply = drive("C04", [f"skel|{ni}|{no}|" + " ".join(words) for ni, no, _t, words in skels])
@@ -998,7 +1076,7 @@ def _run2(chk, scratch, bp):
     builder_ok = not bld_bad and not bld_tok_bad
     chk.notes["builder_probe"] = {"shapes": [f"{len(i)}/{len(o)}" for i, o, *_ in bprobes], "ir_differs": [(a, b, l, p) for a, b, l, p, _ in bld_bad][:4],
                                   "text_differs": bld_tok_bad[:4], "skeleton_differs": skel_bad[:4]}
-    ok, why = chk.prove(gen_lean(skels, normalises, bprobes, skel_ok=not skel_bad, builder_ok=builder_ok),
+    ok, why = chk.prove(gen_lean(skels, normalises, bprobes, skel_ok=not skel_bad, builder_ok=builder_ok, lerp_rows=lerp_rows, lerp_ok=lerp_rows_ok),
                         extra_sources=["Bptk/Core/PyFrag.lean", "Bptk/Proofs/PyFrag.lean"])
     chk.cov["trusted_base"] = [
         "Lean 4.33 kernel; axioms propext, Classical.choice, Quot.sound (audited per run via #print axioms); decide +kernel on Float literals for the drift witness only",
@@ -1068,6 +1146,16 @@ def _run2(chk, scratch, bp):
             for j in range(9):
                 el.append(("flow", j % 2 == 0, ("*", ("L", LITS[j % len(LITS)]), ("R", 0)) if j % 4 == 0 else ("L", LITS[(j + 5) % len(LITS)])))
         cases.append(Case(el, start, txt, d, n))
+    # wave 6, in BOTH tiers: an auxiliary and a flow defined by a skewed graphical function, swept through below-range, every knot,
+    # every segment and above-range by the linear input lo - 1 + TIME / 2 (dt 1), feeding a stock (Euler reference, XMILE = DSL)
+    for xs, ys in SKEW_TABLES[:5] if chk.quick else SKEW_TABLES:
+        pts = list(zip(map(float, xs), map(float, ys)))
+        n = int(2 * (xs[-1] - xs[0] + 2))
+        half = ("*", ("T",), ("L", 0.5))
+        inp = ("+", half, ("L", float(xs[0] - 1))) if xs[0] - 1 >= 0 else ("-", half, ("L", float(1 - xs[0])))
+        el = [("stock", ("L", 0.0), [2], [3], False), ("gf", inp, pts, ("xpts",)), ("flow", False, ("R", 1)),
+              ("gflow", True, ("-", inp, ("L", 0.25)), pts, ("xpts",))]
+        cases.append(Case(el, "0", str(n), ("1", None), n))
     while len(cases) < ncases:
         start, stop, d, n = grid_spec(rng, chk.quick)
         cases.append(Case(gen_graph(rng), start, stop, d, n))
@@ -1213,6 +1301,9 @@ def _run2(chk, scratch, bp):
             sf = spec_failure(small, ev) or (key, text, detail)
         chk.add_finding(sf[0], sf[1], {"case": small.to_json(), "xmile": xmile_doc(small.elems, small.start, small.stop, small.d),
                                        "detail": sf[2], "dt": dt_name(small.d)})
+    elif lerp_fail is not None:
+        chk.add_finding("xmile-lerp-segment", f"generated LERP({lerp_fail['x']!r}, {lerp_fail['points']}) = {lerp_fail['observed']!r}, linear interpolation on the segment "
+                        f"that holds x gives {lerp_fail['expected']!r}", {"kind": "lerp", **lerp_fail})
     elif not flow_gf_ok:
         q, t, got, want = bad_gf[0]
         chk.add_finding("xmile-flow-gf-ignored", f"probe: flow {q} defined by a graphical function: value at t={t!r} is {got!r}, "
@@ -1223,7 +1314,7 @@ def _run2(chk, scratch, bp):
         lab, got, want = bad_probe[0]
         chk.add_finding("xmile-not-euler", f"probe: stock with inflow 1, dt 0.1: S({lab!r}) = {got!r}, Euler gives {want!r}",
                         {"case": probe_case.to_json(), "detail": {"bad": bad_probe[:5]}, "dt": "0.1"})
-    have_input = first_fail is not None or not flow_gf_ok or not normalises      # a finding with a concrete failing input was reported above
+    have_input = first_fail is not None or not flow_gf_ok or not normalises or lerp_fail is not None      # a finding with a concrete failing input was reported above
     if (skel_bad or not builder_ok) and not have_input:
         a, b, text = (skel_bad or bld_tok_bad or [(x[0], x[1], x[4]) for x in bld_bad])[0]
         chk.add_finding("obligation", f"StockExpressions no longer builds the modelled net-flow node ({a} inflows / {b} outflows: {text[:200]}); "
@@ -1247,6 +1338,24 @@ def replay(path):
     import warnings
     warnings.filterwarnings("ignore")
     r = json.load(open(path))["replay"]
+    if r.get("kind") == "lerp":
+        scratch = scratch_dir("bptkc04r")
+        cwd = os.getcwd()
+        try:
+            os.chdir(scratch)
+            mod, _ = compile_xmile_model(PROBE_ELEMS, "0", "1", ("1", None), scratch)
+            pts = [tuple(p) for p in r["points"]]
+            want = py_lerp(pts, r["x"])
+            try:
+                got = float(mod.LERP(r["x"], pts))
+            except BaseException as ex:
+                got = f"{type(ex).__name__}: {ex}"
+            print(f"generated LERP({r['x']!r}, {pts}) = {got!r}; linear interpolation on the segment that holds x: {want!r}")
+            return 0 if isinstance(got, float) and math.isclose(got, want, rel_tol=1e-12, abs_tol=1e-12) else 1
+        finally:
+            os.chdir(cwd)
+            import shutil
+            shutil.rmtree(scratch, ignore_errors=True)
     if "case" not in r:
         print("replay file names an obligation / correspondence, no concrete input:", json.dumps(r)[:600])
         return 1
